@@ -6,11 +6,13 @@ import (
 	"fmt"
 	"io"
 	"math"
+	"os"
 	"runtime"
 	"strings"
 	"sync"
 	"sync/atomic"
 	"testing"
+	"time"
 
 	lz4 "github.com/pierrec/lz4/v4"
 	"pgregory.net/rapid"
@@ -38,6 +40,73 @@ type c07Case struct {
 	WriteTo bool   `json:"writeto"`
 	Sizes   []int  `json:"sizes,omitempty"`
 	Grow    bool   `json:"grow,omitempty"` // WriteTo into a destination that can be asked to grow (a bytes.Buffer): the meter covers what it is told to allocate
+	// Slow: the consumer pauses (virtual time, inside the bubble) before every Read call / inside every Write call it receives, so that
+	// the Reader's goroutines run ahead as far as they ever will; at exponentially spaced steps the heap that is still REACHABLE is
+	// measured (runtime.GC, then HeapAlloc). What is held must not depend on how many blocks the input has.
+	Slow bool `json:"slow,omitempty"`
+}
+
+// liveMeter measures the reachable heap at steps 1, 2, 4, 8 ... of a slow consumer.
+type liveMeter struct {
+	base, peak uint64
+	step, next int
+}
+
+func liveHeap() uint64 {
+	var ms runtime.MemStats
+	runtime.GC()
+	runtime.ReadMemStats(&ms)
+	return ms.HeapAlloc
+}
+
+func (m *liveMeter) start() {
+	// (what earlier cases left in the buffer pools is dropped first: a pool is emptied by two collections)
+	runtime.GC()
+	runtime.GC()
+	m.base, m.next = liveHeap(), 1
+}
+
+func (m *liveMeter) pause() {
+	time.Sleep(time.Millisecond) // (virtual: returns once every goroutine of the Reader is blocked)
+	m.step++
+	if m.step < m.next {
+		return
+	}
+	m.next *= 2
+	h := liveHeap()
+	if h > m.base && h-m.base > m.peak {
+		m.peak = h - m.base
+	}
+}
+
+// slowSink keeps the first MiB of what it is given and pauses in every Write.
+type slowSink struct {
+	m     *liveMeter
+	buf   []byte
+	total int
+	limit int
+}
+
+func (k *slowSink) Write(p []byte) (int, error) {
+	k.m.pause()
+	if k.total+len(p) > k.limit {
+		return 0, inst.ErrSinkFull
+	}
+	if len(k.buf) < 1<<20 {
+		k.buf = append(k.buf, p...)
+	}
+	k.total += len(p)
+	return len(p), nil
+}
+
+// c07LiveBound: what a Reader may keep reachable whatever the input: two buffers of the block maximum (4 MiB; compressed and decoded)
+// per block in flight, about concurrency + 3 blocks in flight, as much again in the buffer pools, plus the first MiB of output.
+func c07LiveBound(conc int) uint64 {
+	k := concOf(conc)
+	if k > 64 {
+		k = 64
+	}
+	return uint64(64<<20) + uint64(k)*uint64(24<<20)
 }
 
 // growSink: a bounded bytes.Buffer (Grow, ReadFrom, WriteString ... are promoted).
@@ -100,19 +169,28 @@ type c07Out struct {
 	err      error
 	consumed int64
 	alloc    uint64
+	live     uint64 // Slow cases: the largest reachable heap seen, over the one before the Reader was made
 }
 
-func c07Read(c c07Case, src io.Reader, consumed func() int64) c07Out {
+func c07Read(c c07Case, src io.Reader, consumed func() int64) (o c07Out) {
 	var ms0, ms1 runtime.MemStats
 	runtime.ReadMemStats(&ms0)
 	rd := lz4.NewReader(src)
-	var o c07Out
 	if err := rd.Apply(lz4.ConcurrencyOption(c.Conc)); err != nil {
 		o.err = err
 		return o
 	}
 	limit := 64 << 20 // keep the output bounded: only termination matters beyond that
-	if c.WriteTo && c.Grow {
+	var meter liveMeter
+	if c.Slow {
+		meter.start()
+		defer func() { o.live = meter.peak }()
+	}
+	if c.WriteTo && c.Slow {
+		sink := &slowSink{m: &meter, limit: limit}
+		_, o.err = rd.WriteTo(sink)
+		o.out = sink.buf
+	} else if c.WriteTo && c.Grow {
 		sink := &growSink{limit: limit}
 		_, o.err = rd.WriteTo(sink)
 		o.out = sink.Bytes()
@@ -133,6 +211,9 @@ func c07Read(c c07Case, src io.Reader, consumed func() int64) c07Out {
 			}
 			if sz < 1 {
 				sz = 1
+			}
+			if c.Slow {
+				meter.pause()
 			}
 			n, err := rd.Read(buf[:sz])
 			if total < 1<<20 {
@@ -219,6 +300,16 @@ func runC07(c c07Case, rec *stat.Rec) *stat.Failure {
 	if bound := c07AllocBound(inputLen, c.Conc); c.Kind != "repeat" && c.Kind != "skipbig" && o.alloc > bound {
 		return stat.Failf("C07/allocation-proportional-to-attacker-controlled-field/"+mode, "%s: %d bytes allocated while decoding (bound %d)", desc, o.alloc, bound)
 	}
+	// what the Reader keeps reachable while a slow consumer lets it run ahead
+	if c.Slow {
+		rec.Class("slow-consumer/" + mode)
+		if os.Getenv("VERIF_DEBUG") != "" {
+			fmt.Fprintf(os.Stderr, "DEBUG slow %s live=%d MiB alloc=%d MiB err=%v\n", desc, o.live>>20, o.alloc>>20, o.err)
+		}
+		if bound := c07LiveBound(c.Conc); o.live > bound {
+			return stat.Failf("C07/memory-held-grows-with-the-number-of-blocks/"+mode, "%s: with a slow consumer %d bytes of heap were reachable at once while decoding (bound %d, whatever the number of blocks)", desc, o.live, bound)
+		}
+	}
 	// the declared block maximum: a block that is larger than the format allows (legacy: the compression bound of 8 MiB) must
 	// not be taken in at all - the independent parser rejects the frame for that reason and the Reader ends without error
 	if c.Kind == "legacygrow" && c.Count >= 2 {
@@ -296,7 +387,7 @@ func runC07(c c07Case, rec *stat.Rec) *stat.Failure {
 			rec.Class("nontrivial/past-the-magic")
 		}
 	}
-	rec.Sample(map[string]interface{}{"kind": c.Kind, "input bytes": inputLen, "concurrency": c.Conc, "writeto": c.WriteTo, "outcome": fmt.Sprint(o.err), "output bytes": len(o.out), "allocated": o.alloc})
+	rec.Sample(map[string]interface{}{"kind": c.Kind, "input bytes": inputLen, "concurrency": c.Conc, "writeto": c.WriteTo, "outcome": fmt.Sprint(o.err), "output bytes": len(o.out), "allocated": o.alloc, "reachable at once (slow consumer)": o.live})
 	return nil
 }
 
@@ -431,6 +522,10 @@ func drawC07(t *rapid.T) c07Case {
 			c.Count = rapid.SampledFrom([]int{100, 10000}).Draw(t, "count")
 		}
 	}
+	// a slow consumer (the Reader runs ahead as far as it ever will) with the reachable heap measured: not on the long repetitions
+	if !c.Grow && c.Count <= 10000 && rapid.IntRange(0, 7).Draw(t, "slow?") == 0 {
+		c.Slow = true
+	}
 	return c
 }
 
@@ -442,7 +537,9 @@ const c07Rule = "byte strings fed to the Reader (sequential and concurrent, Read
 	"skippable frames of every nibble; lazily produced repetitions (up to 3*10^7 legacy magics, 10^5 empty blocks, 3*10^5 empty skippable frames, end marks). Oracle: the call returns data and/or " +
 	"an error: no panic, no process death (stack exhaustion is caught through the journaled case), bubble verdict ok (never blocks forever; no goroutine left blocked after the end of the stream or an " +
 	"error), bytes allocated while decoding stay under 96 MiB + 20 MiB x concurrency + 6 x input (hostile fields are >= 2^30); a non-magic first word gives the invalid-frame error; the 16 skippable " +
-	"magics skip exactly the announced bytes (content and source position checked). Thorough: all 2^32 first words through ValidFrameHeader. Non-trivial = the input got past the magic or is a " +
+	"magics skip exactly the announced bytes (content and source position checked); with a consumer that pauses (virtual time) before every call - so that the Reader's goroutines run ahead as far " +
+	"as they ever will - the heap still reachable (measured after a forced collection at steps 1, 2, 4, ...) stays under 64 MiB + 24 MiB x concurrency, whatever the number of blocks (pinned: 700 one-byte " +
+	"blocks in a frame that declares 4 MiB blocks, concurrency 2/4/16, Read and WriteTo; 1 case in 8 of the generated ones). Thorough: all 2^32 first words through ValidFrameHeader. Non-trivial = the input got past the magic or is a " +
 	"first-word / random case; distinct by hash(kind, input prefix, length, reader mode)."
 
 func TestC07(t *testing.T) {
@@ -473,6 +570,15 @@ func TestC07Deep(t *testing.T) {
 		{Kind: "repeat", Unit: []byte{0x50, 0x2A, 0x4D, 0x18, 1, 0, 0, 0, 0xAA}, Count: 12000000, Suffix: append(append([]byte{}, frameHdr...), 0, 0, 0, 0), Conc: 1, WriteTo: true},
 		{Kind: "repeat", Prefix: []byte{0x02, 0x21, 0x4C, 0x18}, Unit: []byte{1, 0, 0, 0, 0}, Count: 12000000, Conc: 1, Sizes: []int{4096}},
 		{Kind: "repeat", Prefix: frameHdr, Unit: []byte{0, 0, 0, 0x80}, Count: 200000, Suffix: []byte{0, 0, 0, 0}, Conc: 4, Sizes: []int{65536}},
+	}
+	// many tiny blocks in a frame that declares 4 MiB blocks, read by a slow consumer: what is held at once must not grow with their number
+	frameHdr4M := []byte{0x04, 0x22, 0x4D, 0x18, 0x60, 0x70, 0x73}
+	for _, unit := range [][]byte{{1, 0, 0, 0x80, 0x78}, {2, 0, 0, 0, 0x10, 0x78}} {
+		for _, conc := range []int{2, 4, 16} {
+			for _, wt := range []bool{false, true} {
+				cases = append(cases, c07Case{Kind: "repeat", Prefix: frameHdr4M, Unit: unit, Count: 700, Suffix: []byte{0, 0, 0, 0}, Conc: conc, WriteTo: wt, Sizes: []int{1}, Slow: true})
+			}
+		}
 	}
 	// legacy blocks just above 8 MiB (up to the compression bound the Reader accepts), stored raw or "compressed", payload present
 	le := func(v uint32) []byte { return []byte{byte(v), byte(v >> 8), byte(v >> 16), byte(v >> 24)} }
